@@ -192,12 +192,13 @@ Proof.
   intros Ha (W1&W2&W3&W4&W5&W6&W7) Hok Hc Ho. unfold W.
   rewrite (cf_step_o o s Ho), (sent_step o s Hc Ho), (rx_buf_step_o o s Ho), (next_id_step_o o s Hc Ho).
   unfold acc_len. rewrite (rx_tmp_step_o o s Ho). fold (acc_len s).
-  assert (Hn : next_id s <= match o with OSend _ => next_id s + 1 | _ => next_id s end) by (destruct o; lia).
-  split; [exact W1|]. split; [|split; [exact W3|split; [exact W4|split; [destruct o; lia|split]]]].
+  assert (Hn : next_id s <= match o with OSend _ => if in_term s then next_id s else next_id s + 1 | _ => next_id s end)
+    by (destruct o; try lia; destruct (in_term s); lia).
+  split; [exact W1|]. split; [|split; [exact W3|split; [exact W4|split; [destruct o; try lia; destruct (in_term s); lia|split]]]].
   - apply Forall_app. split; [exact W2|]. apply wf_out_op; try assumption. lia.
   - apply pend_start_step_o; [exact Ho| |].
     + eapply Forall_impl; [|exact W6]. intros it. apply tx_ok_mono, Hn.
-    + intros d E. subst o. cbn [op_ok] in Hok. destruct Hok as [H1 H2]. split; [cbn; lia|]. split; assumption.
+    + intros d E Ht. subst o. rewrite Ht. cbn [op_ok] in Hok. destruct Hok as [H1 H2]. split; [cbn; lia|]. split; assumption.
   - intros it E. apply (tx_ok_mono (next_id s)); [exact Hn|].
     destruct (tx_tmp_step_o_origin o s it Ho E) as [E'|Hin]; [apply W7, E'|].
     rewrite Forall_forall in W6. apply W6, Hin.
